@@ -7,7 +7,7 @@ R6 all-pairs/disjoint helpers enumerate complete index sets.
 import ast
 import itertools
 
-from sa.astutil import (call_name, calls_in, dotted, enclosing_function, facts_at,
+from sa.astutil import (effective, call_name, calls_in, dotted, enclosing_function, facts_at,
                         guards_of, norm, walk_no_nested, fact_texts, last_attr)
 from sa.consteval import ConstEval, UNKNOWN, eval_init
 from sa.loader import AnalysisError
@@ -131,8 +131,8 @@ def cell_list(ctx, rule):
            'disjoint-sets routine', mod, loop)
     # a missing neighbour cell is skipped, nothing else is swallowed
     handlers = [h for h in ast.walk(loop) if isinstance(h, ast.ExceptHandler)]
-    h_ok = all(norm(h.type) == 'KeyError' and len(h.body) == 1
-               and isinstance(h.body[0], ast.Continue) for h in handlers)
+    h_ok = all(norm(h.type) == 'KeyError' and len(effective(h.body)) == 1
+               and isinstance(effective(h.body)[0], ast.Continue) for h in handlers)
     ctx.ob(rule('R1'), 'cells:missing-neighbour-skipped', h_ok and len(handlers) <= 1,
            'only the KeyError of a missing neighbour cell is caught, and it only skips',
            mod, loop)
@@ -326,7 +326,7 @@ def run(ctx):
     for node in walk_no_nested(pair):
         if isinstance(node, ast.If) and 'bonded_atoms' in norm(node.test):
             ctx.ob('C11.R4', 'pair:already-bonded-shortcut',
-                   all(isinstance(s, ast.Return) for s in node.body) and not node.orelse
+                   all(isinstance(s, ast.Return) for s in effective(node.body)) and not node.orelse
                    and isinstance(node.test, ast.Compare) and isinstance(node.test.ops[0], ast.In),
                    'the already-bonded shortcut only skips an existing bond', mod, node)
     # make_bond symmetric + irreflexive
